@@ -203,3 +203,76 @@ def global_effects(m, cut=()):
                         e[kind] |= add
                         changed = True
     return direct, eff
+
+
+def _neg(c):
+    return c[1:] if c.startswith("!") else "!" + c
+
+
+def _ends_in_exit(stmt):
+    """the statement always leaves the enclosing function or loop body (return / break / continue / goto last)"""
+    if stmt["kind"] in ("ReturnStmt", "BreakStmt", "ContinueStmt", "GotoStmt"):
+        return True
+    if stmt["kind"] == "CompoundStmt" and kids(stmt):
+        return _ends_in_exit(kids(stmt)[-1])
+    if stmt["kind"] == "IfStmt" and len(kids(stmt)) > 2:
+        return _ends_in_exit(kids(stmt)[1]) and _ends_in_exit(kids(stmt)[2])
+    return False
+
+
+def dominating_conditions(cx, func, node):
+    """Canonical condition strings known to hold whenever `node` executes: conditions of enclosing if-branches (negated
+    for else-branches) and negations of earlier sibling guards whose branch always leaves (`if (c) return;` ... node).
+    A leading '!' marks negation; double negations are removed; top-level conjunctions of positive conditions and
+    disjunctions of negated ones are split."""
+    out = []
+    chain = enclosing_chain(func, node) + [node]
+    for i, anc in enumerate(chain[:-1]):
+        nxt = chain[i + 1]
+        if anc["kind"] == "IfStmt":
+            ch = kids(anc)
+            c = cx.canon(ch[0])
+            if nxt is ch[1] or any(y is nxt for y in [ch[1]]):
+                out.append(c)
+            elif len(ch) > 2 and nxt is ch[2]:
+                out.append(_neg(c))
+        if anc["kind"] == "CompoundStmt":
+            for s_ in kids(anc):
+                if s_ is nxt:
+                    break
+                if s_["kind"] == "IfStmt" and _ends_in_exit(kids(s_)[1]) and not (len(kids(s_)) > 2 and _ends_in_exit(kids(s_)[2])):
+                    out.append(_neg(cx.canon(kids(s_)[0])))
+                elif s_["kind"] == "IfStmt" and len(kids(s_)) > 2 and _ends_in_exit(kids(s_)[2]) and not _ends_in_exit(kids(s_)[1]):
+                    out.append(cx.canon(kids(s_)[0]))
+    # normalise
+    res = []
+
+    def split(t):
+        t = t.strip()
+        while t.startswith("!!"):
+            t = t[2:]
+        neg = t.startswith("!")
+        core = t[1:] if neg else t
+        if core.startswith("(") and core.endswith(")"):
+            inner, depth, parts, cur, i_ = core[1:-1], 0, [], "", 0
+            sep = " || " if neg else " && "
+            while i_ < len(inner):
+                ch_ = inner[i_]
+                depth += ch_ == "("
+                depth -= ch_ == ")"
+                if depth == 0 and inner.startswith(sep, i_):
+                    parts.append(cur)
+                    cur = ""
+                    i_ += 4
+                    continue
+                cur += ch_
+                i_ += 1
+            parts.append(cur)
+            if len(parts) > 1 and depth == 0:
+                for p_ in parts:
+                    split(("!" if neg else "") + p_)
+                return
+        res.append(("!" if neg else "") + core)
+    for c in out:
+        split(c)
+    return res
